@@ -30,3 +30,23 @@ pub open spec fn hm_into_iter_post<K, V, S, A: std::alloc::Allocator>(m: HashMap
 pub assume_specification<K, V, S, A: std::alloc::Allocator>[<HashMap<K, V, S, A> as IntoIterator>::into_iter](m: HashMap<K, V, S, A>) -> (iter: std::collections::hash_map::IntoIter<K, V, A>)
     ensures
         exists|t: std::collections::hash_map::IntoIter<K, V, A>| t == iter && #[trigger] hm_into_iter_post(m, t);
+
+// <[T]>::contains: membership w.r.t. the type's equality; for types whose PartialEq is structural
+// (assumed for the derived impls of the repo) this is membership in the view
+pub assume_specification<T: PartialEq> [<[T]>::contains] (s: &[T], x: &T) -> (r: bool)
+    ensures r == s@.contains(*x);
+
+// `for (k, v) in &map`: borrowed iteration of a HashMap enumerates exactly its entries, each key once
+#[verifier::prophetic]
+pub open spec fn hm_ref_iter_post<'a, K, V, S, A: std::alloc::Allocator>(m: &'a HashMap<K, V, S, A>, iter: std::collections::hash_map::Iter<'a, K, V>) -> bool {
+    let rem = vstd::std_specs::iter::IteratorSpec::remaining(&iter);
+    &&& vstd::std_specs::iter::IteratorSpec::obeys_prophetic_iter_laws(&iter)
+    &&& vstd::std_specs::iter::IteratorSpec::decrease(&iter) is Some
+    &&& rem.len() == m@.dom().len()
+    &&& forall|i: int| 0 <= i < rem.len() ==> m@.contains_key(*(#[trigger] rem[i]).0) && m@[*rem[i].0] == *rem[i].1
+    &&& forall|i: int, j: int| 0 <= i < j < rem.len() ==> *(#[trigger] rem[i]).0 != *(#[trigger] rem[j]).0
+    &&& forall|k: K| m@.contains_key(k) ==> exists|i: int| 0 <= i < rem.len() && *(#[trigger] rem[i]).0 == k
+}
+pub assume_specification<'a, K, V, S, A: std::alloc::Allocator>[<&'a HashMap<K, V, S, A> as IntoIterator>::into_iter](m: &'a HashMap<K, V, S, A>) -> (iter: std::collections::hash_map::Iter<'a, K, V>)
+    ensures
+        exists|t: std::collections::hash_map::Iter<'a, K, V>| t == iter && #[trigger] hm_ref_iter_post(m, t);
